@@ -40,7 +40,8 @@ _finite = st.one_of(st.sampled_from([0.0, 1.0, -1.5, 1e-9, 123456.789]), st.floa
 
 _comp = st.one_of(
     st.sampled_from(["audio", "site 1", "rec.wav", "a.b.c", "día_1", "録音", "x", "cafe\u0301", "\u212bngstr\u00f6m", "\u1112\u1161\u11ab", "\ufb01le",
-                     " lead", "trail ", "nbsp\u00a0", "\u3000wide", "tab\t", "back\\slash", "semi;colon", "100%", "#1", "~tmp", "-dash", "dot."]),
+                     " lead", "trail ", "nbsp\u00a0", "\u3000wide", "tab\t", "back\\slash", "semi;colon", "100%", "#1", "~tmp", "-dash", "dot.",
+                     "rec%20two", "gain_100%25", "a%2Fb", ".hidden", "..dots", ".trash-1000"]),
     st.text(alphabet=st.characters(blacklist_characters="/\x00", blacklist_categories=("Cs",)), min_size=1, max_size=6).filter(lambda c: c not in (".", "..")),
 )
 
